@@ -283,6 +283,9 @@ def simulation(ctx, i, rng, case):
         # first segment without control, second with it (the control is an argument of each run call)
         n1 = rng.randint(3, max(4, n // 2))
         spec['schedule'] = [{'op': 'run', 'dt': dt, 'T': GEN.mulq(dt, n1), 'control': rng.random() < 0.3}, {'op': 'run', 'dt': dt, 'T': GEN.mulq(dt, n)}]
+        if rng.random() < 0.4:
+            # ... and a third one without it again, on the same solver: nothing may touch the duty cycle there
+            spec['schedule'].append({'op': 'run', 'dt': dt, 'T': GEN.mulq(dt, rng.randint(3, 8)), 'control': False})
     try:
         b = build_with_synth(spec, rng, n)
     except Exception as ex:
